@@ -187,7 +187,7 @@ def main():
           for p in all_ids if p not in CHECKS]
     man = {
         'version': 1,
-        'setup_cmd': '/venv/bin/pip install --quiet --no-index --find-links /opt/veriftools/wheels --target /verif/.deps icontract deal || true',
+        'setup_cmd': '/venv/bin/pip install --quiet --no-index --find-links /opt/veriftools/wheels --target /verif/.deps icontract deal atheris || true',
         'hooks': {
             'guard': 'HL7APY_VERIF',
             'enable': 'unused: all instrumentation is external (depth-tracked wrappers, icontract contracts, sys.monitoring); '
